@@ -1,14 +1,960 @@
 package main
 
-// Replay of counterexamples against the real code (go test -overlay).
+// Replay of counterexamples against the real code.
+//
+// For a failed postcondition with a model, the inputs of the function under
+// contract (parameters, receiver state) are read out of the model, the REAL
+// function is run on them through `go test -overlay` (an in-package test is
+// injected, nothing is written into /repo), and the query is re-checked with the
+// inputs AND the observed real outputs pinned: if it is still satisfiable the
+// real execution violates the clause ("confirmed").
 
-func (w *World) tryReplay(r *NamedResult, o *Obl) (string, string) {
-	if o == nil || o.Model == "" {
-		return "no-model", "the solver returned no model (unknown/timeout or quantified goal)"
-	}
-	return replayModel(w, r, o)
+import (
+	"bytes"
+	"context"
+	"encoding/json"
+	"fmt"
+	"go/types"
+	"os"
+	"os/exec"
+	"path/filepath"
+	"regexp"
+	"sort"
+	"strconv"
+	"strings"
+	"time"
+
+	"golang.org/x/tools/go/ssa"
+)
+
+type NamedTerm struct {
+	Name string
+	T    *Term
+	Typ  types.Type
 }
 
-func replayModel(w *World, r *NamedResult, o *Obl) (string, string) {
-	return "not-replayable", "function-level replay is not implemented for this obligation kind yet"
+type ReplayInfo struct {
+	Fn     *ssa.Function
+	Inputs []NamedTerm // parameters (receiver pointee for pointer receivers)
+	Obs    []NamedTerm // results and receiver post-state
+}
+
+func (w *World) tryReplay(r *NamedResult, o *Obl) (string, string) {
+	if o == nil || o.Status != "sat" {
+		return "no-model", "the solver returned no model (unknown/timeout or quantified goal)"
+	}
+	if o.Replay == nil {
+		return "not-replayable", "obligation kind carries no function-level replay information"
+	}
+	outcome, log := w.replay(o)
+	return outcome, log
+}
+
+// ---- type support -------------------------------------------------------
+
+func replayableType(w *World, t types.Type, depth int) bool {
+	if depth > 4 {
+		return false
+	}
+	switch u := t.Underlying().(type) {
+	case *types.Basic:
+		return u.Info()&(types.IsInteger|types.IsString|types.IsBoolean) != 0
+	case *types.Slice:
+		return replayableType(w, u.Elem(), depth+1)
+	case *types.Struct:
+		for i := 0; i < u.NumFields(); i++ {
+			if !replayableType(w, u.Field(i).Type(), depth+1) {
+				return false
+			}
+		}
+		return true
+	case *types.Pointer:
+		if _, ok := u.Elem().Underlying().(*types.Struct); ok && isHandleType(u.Elem()) {
+			return replayableType(w, u.Elem(), depth+1)
+		}
+	case *types.Interface:
+		return types.IsInterface(t) && t.String() == "error"
+	}
+	return false
+}
+
+// leafQueries enumerates the scalar leaves of a value of Go type t held in term tm.
+type leaf struct {
+	path string
+	t    *Term
+}
+
+// ---- solver interaction ---------------------------------------------------
+
+var getValueRe = regexp.MustCompile(`^\(\((.*)\)\)$`)
+
+func (w *World) getValues(queryText string, terms []*Term) (map[string]string, error) {
+	solver := w.replaySolver
+	if solver == "" {
+		solver = "z3-new"
+	}
+	if len(terms) == 0 {
+		return map[string]string{}, nil
+	}
+	var b strings.Builder
+	b.WriteString("(set-option :produce-models true)\n")
+	body := strings.Replace(queryText, "(check-sat)\n", "", 1)
+	b.WriteString(body)
+	for _, t := range terms {
+		fv := map[string]string{}
+		collectVars(t, fv)
+		for _, name := range sortedKeys(fv) {
+			if !strings.Contains(body, "(declare-const "+name+" ") && !strings.Contains(b.String(), "(declare-const "+name+" ") {
+				b.WriteString("(declare-const " + name + " " + fv[name] + ")\n")
+			}
+		}
+	}
+	b.WriteString("(check-sat)\n")
+	for _, t := range terms {
+		b.WriteString("(get-value (" + t.String() + "))\n")
+	}
+	dir, _ := os.MkdirTemp("", "govc-replay")
+	defer os.RemoveAll(dir)
+	f := filepath.Join(dir, "q.smt2")
+	os.WriteFile(f, []byte(b.String()), 0644)
+	if dbg := os.Getenv("GOVC_DEBUG_REPLAY"); dbg != "" {
+		os.WriteFile(dbg, []byte(b.String()), 0644)
+	}
+	ctx, cancel := context.WithTimeout(context.Background(), 30*time.Second)
+	defer cancel()
+	var cmd *exec.Cmd
+	switch solver {
+	case "cvc5":
+		cmd = exec.CommandContext(ctx, "cvc5", "--strings-exp", "--dt-nested-rec", "--tlimit=25000", f)
+	case "z3":
+		cmd = exec.CommandContext(ctx, "z3", "-T:25", f)
+	default:
+		cmd = exec.CommandContext(ctx, "z3-new", "-T:25", f)
+	}
+	var out bytes.Buffer
+	cmd.Stdout = &out
+	cmd.Run()
+	lines := splitSexprs(out.String())
+	if len(lines) == 0 || strings.TrimSpace(lines[0]) != "sat" {
+		first := ""
+		if len(lines) > 0 {
+			first = lines[0]
+		}
+		return nil, fmt.Errorf("solver answered %q when asked for values", first)
+	}
+	res := map[string]string{}
+	for i, t := range terms {
+		if i+1 >= len(lines) {
+			break
+		}
+		s := strings.TrimSpace(lines[i+1])
+		if strings.HasPrefix(s, "(error") {
+			// the symbol does not occur in the query: any value will do
+			switch t.Sort {
+			case "Int":
+				res[t.String()] = "0"
+			case "Bool":
+				res[t.String()] = "false"
+			case "String":
+				res[t.String()] = "\"\""
+			}
+			continue
+		}
+		// ((term value))
+		s = strings.TrimPrefix(s, "((")
+		s = strings.TrimSuffix(s, "))")
+		key := t.String()
+		if strings.HasPrefix(s, key) {
+			res[key] = strings.TrimSpace(s[len(key):])
+		} else if idx := lastTopLevelSplit(s); idx > 0 {
+			res[key] = strings.TrimSpace(s[idx:])
+		}
+	}
+	return res, nil
+}
+
+// splitSexprs splits solver output into top-level s-expressions / atoms.
+func splitSexprs(s string) []string {
+	var out []string
+	depth := 0
+	inStr := false
+	start := -1
+	for i := 0; i < len(s); i++ {
+		c := s[i]
+		if inStr {
+			if c == '"' {
+				if i+1 < len(s) && s[i+1] == '"' {
+					i++
+					continue
+				}
+				inStr = false
+			}
+			continue
+		}
+		switch c {
+		case '"':
+			inStr = true
+			if start < 0 {
+				start = i
+			}
+		case '(':
+			if depth == 0 && start < 0 {
+				start = i
+			}
+			depth++
+		case ')':
+			depth--
+			if depth == 0 && start >= 0 {
+				out = append(out, s[start:i+1])
+				start = -1
+			}
+		case '\n', ' ', '\t', '\r':
+			if depth == 0 && start >= 0 {
+				out = append(out, s[start:i])
+				start = -1
+			}
+		default:
+			if start < 0 {
+				start = i
+			}
+		}
+	}
+	if start >= 0 {
+		out = append(out, s[start:])
+	}
+	return out
+}
+
+func lastTopLevelSplit(s string) int {
+	depth := 0
+	inStr := false
+	last := -1
+	for i := 0; i < len(s); i++ {
+		c := s[i]
+		if inStr {
+			if c == '"' {
+				inStr = false
+			}
+			continue
+		}
+		switch c {
+		case '"':
+			inStr = true
+			if depth == 0 {
+				last = i
+			}
+		case '(':
+			if depth == 0 {
+				last = i
+			}
+			depth++
+		case ')':
+			depth--
+		case ' ':
+		default:
+			if depth == 0 && (i == 0 || s[i-1] == ' ') {
+				last = i
+			}
+		}
+	}
+	return last
+}
+
+func parseSMTString(s string) (string, bool) {
+	if len(s) < 2 || s[0] != '"' || s[len(s)-1] != '"' {
+		return "", false
+	}
+	body := strings.ReplaceAll(s[1:len(s)-1], `""`, `"`)
+	var out []byte
+	for i := 0; i < len(body); i++ {
+		if strings.HasPrefix(body[i:], `\u{`) {
+			j := strings.Index(body[i:], "}")
+			if j > 0 {
+				code, err := strconv.ParseInt(body[i+3:i+j], 16, 32)
+				if err == nil {
+					if code < 256 {
+						out = append(out, byte(code))
+					} else {
+						out = append(out, []byte(string(rune(code)))...)
+					}
+					i += j
+					continue
+				}
+			}
+		}
+		out = append(out, body[i])
+	}
+	return string(out), true
+}
+
+func parseSMTInt(s string) (int64, bool) {
+	s = strings.TrimSpace(s)
+	if strings.HasPrefix(s, "(-") {
+		v, err := strconv.ParseInt(strings.TrimSpace(strings.TrimSuffix(strings.TrimPrefix(s, "(-"), ")")), 10, 64)
+		return -v, err == nil
+	}
+	v, err := strconv.ParseInt(s, 10, 64)
+	return v, err == nil
+}
+
+// extract reads the value of term tm (Go type t) out of a model.  All scalar
+// leaves and slice lengths are fetched in one solver call, pinned, and slice
+// elements are fetched in following rounds, so that the values are consistent.
+func (w *World) extract(queryText string, tm *Term, t types.Type, depth int) (interface{}, error) {
+	known := map[string]string{}
+	query := queryText
+	for round := 0; round < 5; round++ {
+		var need []*Term
+		w.collectLeaves(tm, t, known, &need)
+		if len(need) == 0 {
+			break
+		}
+		vals, err := w.getValues(query, need)
+		if err != nil {
+			return nil, err
+		}
+		var pins strings.Builder
+		for _, n := range need {
+			v, ok := vals[n.String()]
+			if !ok {
+				return nil, fmt.Errorf("no value for %s", n.String())
+			}
+			known[n.String()] = v
+			pins.WriteString("(assert (= " + n.String() + " " + v + "))\n")
+		}
+		query = strings.Replace(query, "(check-sat)\n", pins.String()+"(check-sat)\n", 1)
+	}
+	return w.buildValue(tm, t, known)
+}
+
+func (w *World) collectLeaves(tm *Term, t types.Type, known map[string]string, need *[]*Term) {
+	ask := func(x *Term) bool {
+		if _, ok := known[x.String()]; ok {
+			return true
+		}
+		*need = append(*need, x)
+		return false
+	}
+	switch u := t.Underlying().(type) {
+	case *types.Basic:
+		ask(tm)
+	case *types.Struct:
+		d := w.dts[tm.Sort]
+		if d == nil {
+			return
+		}
+		for i := 0; i < u.NumFields(); i++ {
+			w.collectLeaves(Sel(d.Ctors[0].Sels[i], tm), u.Field(i).Type(), known, need)
+		}
+	case *types.Slice:
+		a := ask(slLen(tm))
+		b := ask(slNil(tm))
+		if !a || !b {
+			return
+		}
+		n, ok := parseSMTInt(known[slLen(tm).String()])
+		if !ok || n < 0 || n > 12 {
+			return
+		}
+		es := elemSortOfSlice(w, tm.Sort)
+		for i := int64(0); i < n; i++ {
+			w.collectLeaves(Select(slArr(tm), IntT(i), es), u.Elem(), known, need)
+		}
+	}
+}
+
+func (w *World) buildValue(tm *Term, t types.Type, known map[string]string) (interface{}, error) {
+	switch u := t.Underlying().(type) {
+	case *types.Basic:
+		v := known[tm.String()]
+		switch {
+		case u.Info()&types.IsString != 0:
+			s, ok := parseSMTString(v)
+			if !ok {
+				return nil, fmt.Errorf("cannot parse string value %q", v)
+			}
+			return s, nil
+		case u.Info()&types.IsBoolean != 0:
+			return v == "true", nil
+		default:
+			i, ok := parseSMTInt(v)
+			if !ok {
+				return nil, fmt.Errorf("cannot parse int value %q", v)
+			}
+			return i, nil
+		}
+	case *types.Struct:
+		d := w.dts[tm.Sort]
+		if d == nil {
+			return nil, fmt.Errorf("no datatype for %s", tm.Sort)
+		}
+		m := map[string]interface{}{}
+		for i := 0; i < u.NumFields(); i++ {
+			v, err := w.buildValue(Sel(d.Ctors[0].Sels[i], tm), u.Field(i).Type(), known)
+			if err != nil {
+				return nil, err
+			}
+			m[u.Field(i).Name()] = v
+		}
+		return m, nil
+	case *types.Slice:
+		n, ok := parseSMTInt(known[slLen(tm).String()])
+		if !ok || n < 0 || n > 12 {
+			return nil, fmt.Errorf("slice length %v outside the replay limit", known[slLen(tm).String()])
+		}
+		if known[slNil(tm).String()] == "true" && n == 0 {
+			return nil, nil
+		}
+		es := elemSortOfSlice(w, tm.Sort)
+		out := []interface{}{}
+		for i := int64(0); i < n; i++ {
+			v, err := w.buildValue(Select(slArr(tm), IntT(i), es), u.Elem(), known)
+			if err != nil {
+				return nil, err
+			}
+			out = append(out, v)
+		}
+		return out, nil
+	}
+	return nil, fmt.Errorf("type %s is not replayable", t)
+}
+
+// termOfJSON converts an observed Go value (decoded JSON) into a ground term of the sort of t.
+func (w *World) termOfJSON(v interface{}, t types.Type) (*Term, error) {
+	switch u := t.Underlying().(type) {
+	case *types.Basic:
+		switch {
+		case u.Info()&types.IsString != 0:
+			s, _ := v.(string)
+			return StrT(s), nil
+		case u.Info()&types.IsBoolean != 0:
+			b, _ := v.(bool)
+			return BoolT(b), nil
+		default:
+			switch n := v.(type) {
+			case float64:
+				return IntT(int64(n)), nil
+			case int64:
+				return IntT(n), nil
+			case int:
+				return IntT(int64(n)), nil
+			}
+			return IntT(0), nil
+		}
+	case *types.Struct:
+		m, _ := v.(map[string]interface{})
+		s := w.sortOf(t)
+		d := w.dts[s]
+		var args []*Term
+		for i := 0; i < u.NumFields(); i++ {
+			a, err := w.termOfJSON(m[u.Field(i).Name()], u.Field(i).Type())
+			if err != nil {
+				return nil, err
+			}
+			args = append(args, a)
+		}
+		return Mk(d.Ctors[0].Name, args...), nil
+	case *types.Slice:
+		ss := w.sortOf(t)
+		es := elemSortOfSlice(w, ss)
+		arr := w.constArray(es)
+		l, _ := v.([]interface{})
+		for i, e := range l {
+			et, err := w.termOfJSON(e, u.Elem())
+			if err != nil {
+				return nil, err
+			}
+			arr = Store(arr, IntT(int64(i)), et)
+		}
+		return mkSlice(ss, arr, IntT(int64(len(l))), BoolT(v == nil)), nil
+	case *types.Interface:
+		// error: nil or message
+		if v == nil {
+			return Mk("err_nil"), nil
+		}
+		s, _ := v.(string)
+		return Mk("err_mk", StrT(s)), nil
+	}
+	return nil, fmt.Errorf("cannot convert observed value of type %s", t)
+}
+
+// ---- the harness --------------------------------------------------------
+
+const harnessHelpers = `
+func rpBuild(v reflect.Value, spec interface{}) {
+	if !v.CanSet() {
+		v = reflect.NewAt(v.Type(), unsafe.Pointer(v.UnsafeAddr())).Elem()
+	}
+	switch v.Kind() {
+	case reflect.String:
+		s, _ := spec.(string)
+		v.SetString(s)
+	case reflect.Bool:
+		b, _ := spec.(bool)
+		v.SetBool(b)
+	case reflect.Int, reflect.Int8, reflect.Int16, reflect.Int32, reflect.Int64:
+		f, _ := spec.(float64)
+		v.SetInt(int64(f))
+	case reflect.Uint, reflect.Uint8, reflect.Uint16, reflect.Uint32, reflect.Uint64:
+		f, _ := spec.(float64)
+		v.SetUint(uint64(f))
+	case reflect.Slice:
+		if spec == nil {
+			return
+		}
+		l, _ := spec.([]interface{})
+		s := reflect.MakeSlice(v.Type(), len(l), len(l))
+		for i := range l {
+			rpBuild(s.Index(i), l[i])
+		}
+		v.Set(s)
+	case reflect.Struct:
+		m, _ := spec.(map[string]interface{})
+		for i := 0; i < v.NumField(); i++ {
+			if fv, ok := m[v.Type().Field(i).Name]; ok {
+				rpBuild(v.Field(i), fv)
+			}
+		}
+	}
+}
+
+func rpDump(v reflect.Value) interface{} {
+	if v.Kind() == reflect.Interface || v.Kind() == reflect.Ptr {
+		if v.IsNil() {
+			return nil
+		}
+		if e, ok := v.Interface().(error); ok {
+			return e.Error()
+		}
+		return rpDump(v.Elem())
+	}
+	if !v.CanInterface() && v.CanAddr() {
+		v = reflect.NewAt(v.Type(), unsafe.Pointer(v.UnsafeAddr())).Elem()
+	}
+	switch v.Kind() {
+	case reflect.String:
+		return v.String()
+	case reflect.Bool:
+		return v.Bool()
+	case reflect.Int, reflect.Int8, reflect.Int16, reflect.Int32, reflect.Int64:
+		return v.Int()
+	case reflect.Uint, reflect.Uint8, reflect.Uint16, reflect.Uint32, reflect.Uint64:
+		return v.Uint()
+	case reflect.Slice:
+		if v.IsNil() {
+			return nil
+		}
+		out := []interface{}{}
+		for i := 0; i < v.Len(); i++ {
+			out = append(out, rpDump(v.Index(i)))
+		}
+		return out
+	case reflect.Struct:
+		m := map[string]interface{}{}
+		cp := reflect.New(v.Type()).Elem()
+		cp.Set(v)
+		for i := 0; i < cp.NumField(); i++ {
+			m[cp.Type().Field(i).Name] = rpDump(cp.Field(i))
+		}
+		return m
+	}
+	return nil
+}
+`
+
+func qualifiedType(t types.Type, pkg *types.Package) string {
+	return types.TypeString(t, func(p *types.Package) string {
+		if p == pkg {
+			return ""
+		}
+		return p.Name()
+	})
+}
+
+func (w *World) replay(o *Obl) (string, string) {
+	ri := o.Replay
+	fn := ri.Fn
+	var log strings.Builder
+	if fn.Pkg == nil {
+		return "not-replayable", "function has no package"
+	}
+	for _, in := range ri.Inputs {
+		if in.T == nil || !replayableType(w, in.Typ, 0) {
+			return "not-replayable", fmt.Sprintf("input %s has type %s (AST node / map / function values cannot be built from a model)", in.Name, in.Typ)
+		}
+	}
+	for _, ob := range ri.Obs {
+		if !replayableType(w, ob.Typ, 0) {
+			return "not-replayable", fmt.Sprintf("observable %s has type %s", ob.Name, ob.Typ)
+		}
+	}
+	if o.Text == "" {
+		return "not-replayable", "query text not available"
+	}
+	qdata, err := os.ReadFile(o.Text)
+	if err != nil {
+		return "not-replayable", "query file gone"
+	}
+	query := string(qdata)
+	fullQuery := query
+	// model search uses a relaxed, quantifier-free version of the assumptions (bounded
+	// instantiation); the final confirmation below uses the full query again
+	relaxed := &Obl{Goal: o.Goal}
+	for _, a := range o.Assumes {
+		relaxed.Assumes = append(relaxed.Assumes, relaxQuant(a, 0)...)
+	}
+	query = w.renderQuery(relaxed, false)
+	// 1. inputs from the model (slice lengths capped by an extra constraint)
+	inputs := map[string]interface{}{}
+	w.replaySolver = "z3-new"
+	// bound the sizes so that a small model is found
+	var bounds strings.Builder
+	for _, in := range ri.Inputs {
+		w.sizeBounds(in.T, in.Typ, 0, &bounds)
+	}
+	query = strings.Replace(query, "(check-sat)\n", bounds.String()+"(check-sat)\n", 1)
+	known := map[string]string{}
+	pinned := query
+	for round := 0; round < 6; round++ {
+		var need []*Term
+		for _, in := range ri.Inputs {
+			typ := in.Typ
+			if p, ok := typ.Underlying().(*types.Pointer); ok {
+				typ = p.Elem()
+			}
+			w.collectLeaves(in.T, typ, known, &need)
+		}
+		if len(need) == 0 {
+			break
+		}
+		vals, err := w.getValues(pinned, need)
+		if err != nil {
+			return "not-replayable", "model extraction: " + err.Error()
+		}
+		var pins strings.Builder
+		for _, n := range need {
+			v, ok := vals[n.String()]
+			if !ok {
+				return "not-replayable", "model extraction: no value for " + n.String()
+			}
+			known[n.String()] = v
+			if n.Kind == KVar && !strings.Contains(pinned, "(declare-const "+n.Op+" ") {
+				continue // the symbol does not occur in the query
+			}
+			pins.WriteString("(assert (= " + n.String() + " " + v + "))\n")
+		}
+		pinned = strings.Replace(pinned, "(check-sat)\n", pins.String()+"(check-sat)\n", 1)
+	}
+	for _, in := range ri.Inputs {
+		typ := in.Typ
+		if p, ok := typ.Underlying().(*types.Pointer); ok {
+			typ = p.Elem()
+		}
+		v, err := w.buildValue(in.T, typ, known)
+		if err != nil {
+			return "not-replayable", "model extraction: " + err.Error()
+		}
+		inputs[in.Name] = v
+	}
+	ij, _ := json.Marshal(inputs)
+	fmt.Fprintf(&log, "inputs from model: %s\n", ij)
+	// 2. generate and run the in-package test
+	pkg := fn.Pkg.Pkg
+	var src strings.Builder
+	imports := map[string]bool{}
+	var decl, callArgs []string
+	recvName := ""
+	for i, p := range fn.Params {
+		ts := qualifiedType(p.Type(), pkg)
+		noteImports(p.Type(), pkg, imports)
+		name := fmt.Sprintf("a%d", i)
+		if i == 0 && fn.Signature.Recv() != nil {
+			recvName = name
+			if pt, ok := p.Type().(*types.Pointer); ok {
+				decl = append(decl, fmt.Sprintf("\t%s := new(%s)\n\trpBuild(reflect.ValueOf(%s).Elem(), in[%q])", name, qualifiedType(pt.Elem(), pkg), name, p.Name()))
+			} else {
+				decl = append(decl, fmt.Sprintf("\tvar %s %s\n\trpBuild(reflect.ValueOf(&%s).Elem(), in[%q])", name, ts, name, p.Name()))
+			}
+			continue
+		}
+		decl = append(decl, fmt.Sprintf("\tvar %s %s\n\trpBuild(reflect.ValueOf(&%s).Elem(), in[%q])", name, ts, name, p.Name()))
+		callArgs = append(callArgs, name)
+	}
+	nres := fn.Signature.Results().Len()
+	var resNames []string
+	for i := 0; i < nres; i++ {
+		resNames = append(resNames, fmt.Sprintf("r%d", i))
+	}
+	call := fn.Name() + "(" + strings.Join(callArgs, ", ") + ")"
+	if recvName != "" {
+		call = recvName + "." + call
+	}
+	src.WriteString("package " + pkg.Name() + "\n\nimport (\n\t\"encoding/json\"\n\t\"fmt\"\n\t\"reflect\"\n\t\"testing\"\n\t\"unsafe\"\n")
+	var imps []string
+	for p := range imports {
+		imps = append(imps, p)
+	}
+	sort.Strings(imps)
+	for _, p := range imps {
+		src.WriteString("\t\"" + p + "\"\n")
+	}
+	src.WriteString(")\n\nvar _ = unsafe.Pointer(nil)\n" + harnessHelpers + "\nfunc TestGovcReplay(t *testing.T) {\n\tvar in map[string]interface{}\n")
+	src.WriteString("\tjson.Unmarshal([]byte(" + strconv.Quote(string(ij)) + "), &in)\n")
+	src.WriteString(strings.Join(decl, "\n") + "\n")
+	src.WriteString("\tout := map[string]interface{}{}\n")
+	src.WriteString("\tfunc() {\n\t\tdefer func() {\n\t\t\tif r := recover(); r != nil {\n\t\t\t\tout[\"panic\"] = fmt.Sprint(r)\n\t\t\t}\n\t\t}()\n")
+	if nres > 0 {
+		src.WriteString("\t\t" + strings.Join(resNames, ", ") + " := " + call + "\n")
+		for i, r := range resNames {
+			fmt.Fprintf(&src, "\t\tout[\"result%d\"] = rpDump(reflect.ValueOf(&%s).Elem())\n", i, r)
+		}
+	} else {
+		src.WriteString("\t\t" + call + "\n")
+	}
+	src.WriteString("\t}()\n")
+	if recvName != "" {
+		fmt.Fprintf(&src, "\tout[\"recv\"] = rpDump(reflect.ValueOf(%s))\n", recvName)
+	}
+	src.WriteString("\tb, _ := json.Marshal(out)\n\tfmt.Println(\"REPLAY-OUT \" + string(b))\n}\n")
+
+	dir, _ := os.MkdirTemp("", "govc-replay")
+	defer os.RemoveAll(dir)
+	testFile := filepath.Join(dir, "zz_govc_replay_test.go")
+	os.WriteFile(testFile, []byte(src.String()), 0644)
+	pkgDir := w.pkgDir(fn.Pkg)
+	overlay := map[string]interface{}{"Replace": map[string]string{filepath.Join(pkgDir, "zz_govc_replay_test.go"): testFile}}
+	oj, _ := json.Marshal(overlay)
+	ovFile := filepath.Join(dir, "overlay.json")
+	os.WriteFile(ovFile, oj, 0644)
+	ctx, cancel := context.WithTimeout(context.Background(), 120*time.Second)
+	defer cancel()
+	cmd := exec.CommandContext(ctx, "go", "test", "-overlay", ovFile, "-tags", "verif", "-vet=off", "-count=1", "-timeout", "60s", "-v", "-run", "^TestGovcReplay$", ".")
+	cmd.Dir = pkgDir
+	cmd.Env = append(os.Environ(), "GOFLAGS=-mod=mod", "GOPROXY=off", "GOSUMDB=off", "GOTOOLCHAIN=local")
+	var outb bytes.Buffer
+	cmd.Stdout = &outb
+	cmd.Stderr = &outb
+	cmd.Run()
+	var observed map[string]interface{}
+	for _, ln := range strings.Split(outb.String(), "\n") {
+		if strings.HasPrefix(ln, "REPLAY-OUT ") {
+			json.Unmarshal([]byte(strings.TrimPrefix(ln, "REPLAY-OUT ")), &observed)
+		}
+	}
+	if observed == nil {
+		return "not-replayable", log.String() + "the injected test produced no output:\n" + truncate(outb.String(), 1500)
+	}
+	oj2, _ := json.Marshal(observed)
+	fmt.Fprintf(&log, "real outputs: %s\n", truncate(string(oj2), 3000))
+	if p, ok := observed["panic"]; ok {
+		fmt.Fprintf(&log, "the real function panicked: %v\n", p)
+		if o.Kind == "safety" {
+			return "confirmed", log.String()
+		}
+		return "not-confirmed", log.String()
+	}
+	// 3. pin inputs and observed outputs, re-check
+	var pins []*Term
+	for _, in := range ri.Inputs {
+		typ := in.Typ
+		if p, ok := typ.Underlying().(*types.Pointer); ok {
+			typ = p.Elem()
+		}
+		gt, err := w.termOfJSON(inputs[in.Name], typ)
+		if err != nil {
+			return "not-replayable", log.String() + err.Error()
+		}
+		pins = append(pins, w.pinEq(in.T, gt, typ)...)
+	}
+	for _, ob := range ri.Obs {
+		var val interface{}
+		typ := ob.Typ
+		if ob.Name == "recv" {
+			val = observed["recv"]
+			if p, ok := typ.Underlying().(*types.Pointer); ok {
+				typ = p.Elem()
+			}
+		} else {
+			val = observed[ob.Name]
+		}
+		gt, err := w.termOfJSON(val, typ)
+		if err != nil {
+			return "not-replayable", log.String() + err.Error()
+		}
+		pins = append(pins, w.pinEq(ob.T, gt, typ)...)
+	}
+	var pinText strings.Builder
+	declared := map[string]bool{}
+	for _, p := range pins {
+		fv := map[string]string{}
+		collectVars(p, fv)
+		for _, name := range sortedKeys(fv) {
+			if !declared[name] && !strings.Contains(fullQuery, "(declare-const "+name+" ") {
+				pinText.WriteString("(declare-const " + name + " " + fv[name] + ")\n")
+				declared[name] = true
+			}
+		}
+		pinText.WriteString("(assert " + p.String() + ")\n")
+	}
+	final := strings.Replace(fullQuery, "(check-sat)\n", pinText.String()+"(check-sat)\n", 1)
+	ff := filepath.Join(dir, "final.smt2")
+	os.WriteFile(ff, []byte(final), 0644)
+	res := runSolver(solvers[0], ff, 20, context.Background())
+	fmt.Fprintf(&log, "query with inputs and real outputs pinned: %s\n", res.status)
+	if dbg := os.Getenv("GOVC_DEBUG_REPLAY"); dbg != "" {
+		os.WriteFile(dbg+".final", []byte(final), 0644)
+	}
+	if res.status == "error" {
+		fmt.Fprintf(&log, "solver said: %s\n", truncate(res.raw, 400))
+		if dbg := os.Getenv("GOVC_DEBUG_REPLAY"); dbg != "" {
+			os.WriteFile(dbg+".final", []byte(final), 0644)
+		}
+	}
+	switch res.status {
+	case "sat":
+		return "confirmed", log.String()
+	case "unsat":
+		return "not-confirmed", log.String() + "the real outputs on the model's inputs satisfy the clause (or differ from the engine's prediction)\n"
+	}
+	return "inconclusive", log.String()
+}
+
+// pinEq equates a symbolic term with a ground value, element-wise for slices
+// (array contents beyond len are irrelevant).
+func (w *World) pinEq(sym, ground *Term, t types.Type) []*Term {
+	switch u := t.Underlying().(type) {
+	case *types.Slice:
+		var out []*Term
+		out = append(out, Eq(slLen(sym), slLen(ground)))
+		n := slLen(ground)
+		es := elemSortOfSlice(w, sym.Sort)
+		for i := int64(0); n.Kind == KInt && i < n.I; i++ {
+			out = append(out, w.pinEq(Select(slArr(sym), IntT(i), es), Select(slArr(ground), IntT(i), es), u.Elem())...)
+		}
+		return out
+	case *types.Struct:
+		d := w.dts[sym.Sort]
+		var out []*Term
+		for i := 0; i < u.NumFields(); i++ {
+			out = append(out, w.pinEq(Sel(d.Ctors[0].Sels[i], sym), Sel(d.Ctors[0].Sels[i], ground), u.Field(i).Type())...)
+		}
+		return out
+	}
+	return []*Term{Eq(sym, ground)}
+}
+
+func noteImports(t types.Type, self *types.Package, into map[string]bool) {
+	switch u := t.(type) {
+	case *types.Named:
+		if p := u.Obj().Pkg(); p != nil && p != self {
+			into[p.Path()] = true
+		}
+	case *types.Pointer:
+		noteImports(u.Elem(), self, into)
+	case *types.Slice:
+		noteImports(u.Elem(), self, into)
+	}
+}
+
+func (w *World) pkgDir(p *ssa.Package) string {
+	for _, pk := range w.pkgs {
+		if pk.Types == p.Pkg && len(pk.GoFiles) > 0 {
+			return filepath.Dir(pk.GoFiles[0])
+		}
+	}
+	return "/repo"
+}
+
+func cmdReplay(args []string) {
+	if len(args) < 2 {
+		fmt.Println("usage: govc replay -file <replay.json>")
+		os.Exit(2)
+	}
+	data, err := os.ReadFile(args[1])
+	if err != nil {
+		fmt.Println(err)
+		os.Exit(2)
+	}
+	var rep map[string]interface{}
+	json.Unmarshal(data, &rep)
+	fmt.Printf("obligation: %v\nstatus: %v\nreplay outcome: %v\n%v\n", rep["obligation"], rep["status"], rep["replay_outcome"], rep["replay_log"])
+}
+
+// sizeBounds asserts small lengths for the slices and strings of an input (model minimisation).
+func (w *World) sizeBounds(tm *Term, t types.Type, depth int, b *strings.Builder) {
+	if tm == nil || depth > 2 {
+		return
+	}
+	if p, ok := t.Underlying().(*types.Pointer); ok {
+		t = p.Elem()
+	}
+	switch u := t.Underlying().(type) {
+	case *types.Basic:
+		if u.Info()&types.IsString != 0 {
+			b.WriteString("(assert (<= (str.len " + tm.String() + ") 8))\n")
+		}
+	case *types.Slice:
+		b.WriteString("(assert (<= " + slLen(tm).String() + " 4))\n")
+		if _, inner := u.Elem().Underlying().(*types.Slice); inner {
+			es := elemSortOfSlice(w, tm.Sort)
+			for i := 0; i < 4; i++ {
+				b.WriteString(fmt.Sprintf("(assert (<= (%s_len (select %s %d)) 3))\n", es, slArr(tm).String(), i))
+			}
+		}
+	case *types.Struct:
+		d := w.dts[tm.Sort]
+		if d == nil {
+			return
+		}
+		for i := 0; i < u.NumFields(); i++ {
+			w.sizeBounds(Sel(d.Ctors[0].Sels[i], tm), u.Field(i).Type(), depth+1, b)
+		}
+	}
+}
+
+// relaxQuant weakens an assumption for model search: a universally quantified
+// conjunct is replaced by a few instances (the first values of its range);
+// anything else that still contains a quantifier is dropped.  Every result is
+// implied by the input, so models of the original are models of the relaxation.
+func relaxQuant(t *Term, depth int) []*Term {
+	if !hasQuant(t) {
+		return []*Term{t}
+	}
+	if t.Kind == KApp && t.Op == "and" {
+		var out []*Term
+		for _, a := range t.Args {
+			out = append(out, relaxQuant(a, depth)...)
+		}
+		return out
+	}
+	if t.Kind == KQuant && t.Op == "forall" && len(t.Bound) == 1 && t.Bound[0].Sort == "Int" && depth < 3 {
+		body := t.Args[0]
+		lo := IntT(0)
+		if body.Kind == KApp && body.Op == "=>" {
+			ant := body.Args[0]
+			conj := []*Term{ant}
+			if ant.Kind == KApp && ant.Op == "and" {
+				conj = ant.Args
+			}
+			for _, c := range conj {
+				if c.Kind == KApp && c.Op == "<=" && len(c.Args) == 2 && sameTerm(c.Args[1], t.Bound[0]) {
+					lo = c.Args[0]
+				}
+			}
+		}
+		var out []*Term
+		for i := int64(0); i < 5; i++ {
+			inst := substTerm(body, []*Term{t.Bound[0]}, []*Term{Add(lo, IntT(i))})
+			out = append(out, relaxQuant(inst, depth+1)...)
+		}
+		return out
+	}
+	if t.Kind == KApp && t.Op == "=>" && !hasQuant(t.Args[0]) {
+		var out []*Term
+		for _, c := range relaxQuant(t.Args[1], depth) {
+			out = append(out, Implies(t.Args[0], c))
+		}
+		return out
+	}
+	return nil
 }
